@@ -90,6 +90,12 @@ def check_inv(tasks, wbss):
         w = hidden.get(id(root(t)))
         if OWN(t) is not w: bad.append(('C11 Task.wbs differs from reachability', f'task {t.id}: reports {"a WBS" if OWN(t) is not None else None}, is {"member" if w is not None else "detached"}'))
         if t.wbs is not OWN(t): bad.append(('C11 Task.wbs differs from reachability', 'property vs field'))
+    listed = {}
+    for w in wbss:
+        for x in w.tasks: listed.setdefault(id(x), w)
+    for t in tasks:          # the property's own wording: owner X exactly when the task appears in X.tasks
+        if t.wbs is not listed.get(id(t)):
+            bad.append(('C11 Task.wbs differs from reachability', f'task {t.id}: reports {"a WBS" if t.wbs is not None else None}, {"is" if id(t) in listed else "is not"} listed in WBS.tasks'))
     # public view agrees with the raw view (C05: lookup, depth-first listing)
     for w in wbss:
         def dfs_list(t):
@@ -149,7 +155,13 @@ def make_op(rng, tasks, wbss, facades, mode='mixed', former=None):
         get = (lambda: o.roots) if isinstance(o, WBS) else (lambda: o.children)
         setter = (lambda val: setattr(o, 'roots', val)) if isinstance(o, WBS) else (lambda val: setattr(o, 'children', val))
         attr = 'roots' if isinstance(o, WBS) else 'children'
-        return [
+        cur = list(R(o)._Task__children); extra = []
+        if len(cur) >= 2:
+            rep = list(cur); rng.shuffle(rep); rep[0] = rep[1]            # the current children, same length, one repeated and one left out
+            extra.append(Op(f'{on}.{attr} = {tn(rep)}  [current children, one repeated, one left out]', lambda: setter(rep), [R(o)] + rep, ('assign-children', R(o), rep)))
+        if cur:
+            extra.append(Op(f'{on}.{attr} = {on}.{attr}  [its own live list view: {tn(cur)}]', lambda: setter(get()), [R(o)] + cur, ('assign-children', R(o), cur)))
+        return extra + [
             Op(f'{on}.{attr} = {tn(L)}', lambda: setter(L), [R(o)] + L, ('assign-children', R(o), L)),
             Op(f'{on}.{attr}.append({tn(u)})', lambda: get().append(u), [R(o), u], ('append-child', R(o), u)),
             Op(f'{on}.{attr}.remove({tn(u)})', lambda: get().remove(u), [R(o), u], ('remove-child', R(o), u)),
@@ -213,7 +225,7 @@ def make_op(rng, tasks, wbss, facades, mode='mixed', former=None):
             Op(f'{fo}.sort("id")', lambda: f.sort('id'), [R(owner)], ('sort', R(owner), False)),
             Op(f'{fo}.insert({i}, {tn(fu)})', lambda: f.insert(i, fu), [R(owner), fu], ('insert-child', R(owner), i, fu)),
         ]
-    targeted = [o for o in cand if '[' in o.name and ('former' in o.name or 'promotes' in o.name)] + [o for o in cand if o.name.startswith('facade')]
+    targeted = [o for o in cand if '[' in o.name and ('former' in o.name or 'promotes' in o.name or 'repeated' in o.name or 'live list view' in o.name)] + [o for o in cand if o.name.startswith('facade')]
     if mode != 'links' and targeted and rng.random() < 0.3:
         return rng.choice(targeted)
     if mode == 'links':
